@@ -1147,7 +1147,7 @@ def random_scenario(rng, *, profile="mixed", run_seed=None):
         scn["adapters"] = rng.choice(choices)
         if rng.random() < 0.3:
             scn["monitor_stats"] = rng.choice([None, ["accept_stat"], ["n_step", "accept_stat"]])
-    scn["n_chain"] = rng.choice([1, 2, 2, 3, 3, 4, 5])
+    scn["n_chain"] = rng.choice([1, 2, 2, 3, 3, 4, 5, 1, 2, 2, 3, 3, 4, 5, 11])  # 11: two-digit chain indices, more chains than small thresholds
     scn["n_warm_up"] = rng.choice([0, 0, 1, 2, 3, 5, 8, 12, 20, 30]) if profile != "long_warm" else rng.choice([20, 40, 160])
     scn["n_main"] = rng.choice([0, 1, 2, 3, 5, 8])
     scn["trace_warm_up"] = rng.random() < 0.5
